@@ -121,13 +121,22 @@ func sccKey(comp []*ssa.Function) string {
 			return "recursive-descent-compiler"
 		}
 	}
-	set := map[string]bool{}
+	// A component is named after its exported functions/methods (the API the
+	// recursion is entered through: Equals, String, Copy, Encode); unexported
+	// helpers and closures that merely take part in the cycle do not change
+	// its identity, so extracting a helper from Equals leaves the key alone.
+	set, exported := map[string]bool{}, map[string]bool{}
 	for _, f := range comp {
 		n := f.Name()
 		if f.Parent() != nil {
 			n = f.Parent().Name() + "$lit"
+		} else if ast.IsExported(n) {
+			exported[n] = true
 		}
 		set[n] = true
+	}
+	if len(exported) > 0 {
+		return strings.Join(sortedKeys(exported), "+")
 	}
 	return strings.Join(sortedKeys(set), "+")
 }
@@ -370,6 +379,7 @@ func ruleSHARE(c *Ctx) {
 	delete(shared, "tengo.ObjectPtr") // per-run closure cells (CompiledFunction.Free of run-time closures)
 	c.note("SHARE.1 clone-shared types: %v", sortedKeys(shared))
 	seq := seqKeys{}
+	sharedSites := map[string][]token.Pos{}
 	nStores := 0
 	for fn := range reach {
 		if !w.inModule(fn) || fn.Blocks == nil {
@@ -431,15 +441,15 @@ func ruleSHARE(c *Ctx) {
 					nStores++
 					f := stt.Field(a.Field)
 					ctx := w.ctxKey(st.Pos())
-					key := seq.next("shared-write/" + ctx + "/" + tn + "." + f.Name())
 					if isLocalAlloc(a.X) {
-						c.ok(key, &posNode{st.Pos()}, "object allocated in the same function (not yet shared)")
+						c.ok(seq.next("shared-write/"+ctx+"/"+tn+"."+f.Name()), &posNode{st.Pos()}, "object allocated in the same function (not yet shared)")
 						continue
 					}
-					// run-time objects of shared *types* that are not constants:
-					// CompiledFunction closures are built in the VM (local alloc above);
-					// frames are VM-private
-					c.fail(key, &posNode{st.Pos()}, fmt.Sprintf("field %s.%s is written in a function reachable from VM.Run on an object that may be a constant shared by all clones of a compiled script: concurrent clones race on it", tn, f.Name()))
+					// a finding is the field, not the function that happens to
+					// hold the store: moving the lazy initialisation into a
+					// helper is the same (recorded) race
+					key := "shared-write/" + tn + "." + f.Name()
+					sharedSites[key] = append(sharedSites[key], st.Pos())
 				case *ssa.Global:
 					if a.Pkg != nil && (a.Pkg.Pkg == p.Types || a.Pkg.Pkg == w.Parser.Types || a.Pkg.Pkg == w.Token.Types) {
 						nStores++
@@ -448,6 +458,16 @@ func ruleSHARE(c *Ctx) {
 				}
 			}
 		}
+	}
+	for _, key := range sortedKeys(sharedSites) {
+		ps := sharedSites[key]
+		sort.Slice(ps, func(i, j int) bool { return ps[i] < ps[j] })
+		var sites []string
+		for _, q := range ps {
+			sites = append(sites, w.ctxKey(q)+" ("+w.SitePos(q)+")")
+		}
+		fld := strings.TrimPrefix(key, "shared-write/")
+		c.fail(key, &posNode{ps[0]}, fmt.Sprintf("field %s is written in a function reachable from VM.Run on an object that may be a constant shared by all clones of a compiled script: concurrent clones race on it; stores: %s", fld, strings.Join(sites, ", ")))
 	}
 	c.check(nStores > 0, "shared-write/scan", nil, fmt.Sprintf("%d stores to fields of clone-shared types examined in %d reachable functions", nStores, len(reach)), "no store to a shared type found at all (closure construction in the VM must show up): analysis incomplete")
 }
